@@ -14,11 +14,7 @@ from __future__ import annotations
 
 import asyncio
 import ipaddress
-import json
-import os
 import random
-import ssl
-import tempfile
 
 from .. import core
 from ..core import Family
@@ -421,45 +417,6 @@ class Objects(_AclFamily):
 # ----------------------------------------------------------------------------
 # TOML -> ServerConfig -> `nauyaca serve` -> start_server -> chain -> protocol
 # ----------------------------------------------------------------------------
-def toml_value(v) -> str:
-    if isinstance(v, bool):
-        return "true" if v else "false"
-    if isinstance(v, (int, float)):
-        return repr(v)
-    if isinstance(v, str):
-        return json.dumps(v)  # JSON string escapes are valid TOML basic-string escapes (BMP only)
-    if isinstance(v, list):
-        return "[" + ", ".join(toml_value(x) for x in v) + "]"
-    if isinstance(v, dict):
-        return "{" + ", ".join(f"{k} = {toml_value(x)}" for k, x in v.items()) + "}"
-    raise TypeError(v)
-
-
-class _Transport:
-    def __init__(self, peer):
-        self.peer = peer
-        self.w: list[bytes] = []
-        self.closed = False
-
-    def get_extra_info(self, k, d=None):
-        if k == "peername":
-            return (self.peer, 50000) if ":" not in self.peer else (self.peer, 50000, 0, 0)
-        return d
-
-    def write(self, b):
-        if not self.closed:
-            self.w.append(bytes(b))
-
-    def close(self):
-        self.closed = True
-
-    def is_closing(self):
-        return self.closed
-
-    def abort(self):
-        self.closed = True
-
-
 class Wiring(_AclFamily):
     """the [access_control] table of a TOML file through to the chain and protocol the server would run"""
 
@@ -468,63 +425,10 @@ class Wiring(_AclFamily):
     thorough_n = 100000
 
     def setup(self):
-        import asyncio.base_events as be
+        from ..sim import mw_wiring
 
-        import nauyaca.server.server as S
-
-        self.dir = tempfile.mkdtemp(prefix="nv-c09-")
-        with open(os.path.join(self.dir, "index.gmi"), "w") as f:
-            f.write("# capsule\n")
-        self.cap: dict = {}
-        fam = self
-
-        class DummyServer:
-            def __init__(self, factory):
-                self.factory = factory
-
-            async def __aenter__(self):
-                return self
-
-            async def __aexit__(self, *a):
-                return False
-
-            async def serve_forever(self):
-                await fam.probe(self.factory)
-
-        async def fake_create_server(loop_self, factory, host=None, port=None, **kw):
-            fam.cap["created"] = True
-            return DummyServer(factory)
-
-        be.BaseEventLoop.create_server = fake_create_server  # no port is ever bound in this process
-        # the TLS context is irrelevant here; avoid generating an RSA key per case
-        S._create_self_signed_context = lambda request_client_cert=False: ssl.SSLContext(ssl.PROTOCOL_TLS_SERVER)
-
-    async def probe(self, factory):
-        proto = factory()
-        chain = getattr(proto, "middleware", None)
-        mws = list(getattr(chain, "middlewares", [])) if chain is not None else []
-        self.cap["component"] = any(type(m).__name__ == "AccessControl" for m in mws)
-        res, wire = [], []
-        for p in self.cap["peers"]:
-            if chain is None:
-                res.append([True])
-            else:
-                ok, line = await chain.process_request("gemini://localhost/", p, None)
-                res.append([True] if ok else [False, line])
-            pr = factory()
-            t = _Transport(p)
-            pr.connection_made(t)
-            pr.data_received(b"gemini://localhost/\r\n")
-            for _ in range(60):
-                if t.closed:
-                    break
-                await asyncio.sleep(0)
-            wire.append(b"".join(t.w)[:2].decode("latin1"))
-            try:
-                pr.connection_lost(None)
-            except Exception:  # noqa: BLE001
-                pass
-        self.cap["res"], self.cap["wire"] = res, wire
+        self.W = mw_wiring
+        self.capture = mw_wiring.Capture()
 
     def gen(self, rng, n):
         for c in self.gen_cases(rng, n):
@@ -536,43 +440,43 @@ class Wiring(_AclFamily):
             yield c
 
     def toml_text(self, case) -> str:
-        lines = ["[server]", f"document_root = {toml_value(self.dir)}", 'host = "localhost"', "",
-                 "[rate_limit]"]
+        tv = self.W.toml_value
+        lines = self.capture.server_section() + ["[rate_limit]"]
         lines += ["enabled = true", "capacity = 100000"] if case.get("rate_limit") else ["enabled = false"]
         lines += ["", "[access_control]"]
         if case.get("enabled") is not None:
-            lines.append(f"enabled = {toml_value(case['enabled'])}")
+            lines.append(f"enabled = {tv(case['enabled'])}")
         if case["allow"] is not None:
-            lines.append(f"allow_list = {toml_value(case['allow'])}")
+            lines.append(f"allow_list = {tv(case['allow'])}")
         if case["deny"] is not None:
-            lines.append(f"deny_list = {toml_value(case['deny'])}")
+            lines.append(f"deny_list = {tv(case['deny'])}")
         if case.get("dflt_written", True):
-            lines.append(f"default_allow = {toml_value(case['default'])}")
+            lines.append(f"default_allow = {tv(case['default'])}")
         return "\n".join(lines) + "\n"
 
     def impl(self, case):
-        from typer.testing import CliRunner
+        cap: dict = {}
 
-        import nauyaca.__main__ as M
+        async def probe(factory):
+            proto = factory()
+            chain = getattr(proto, "middleware", None)
+            mws = list(getattr(chain, "middlewares", [])) if chain is not None else []
+            cap["component"] = any(type(m).__name__ == "AccessControl" for m in mws)
+            res, wire = [], []
+            for p in case["peers"]:
+                if chain is None:
+                    res.append([True])
+                else:
+                    ok, line = await chain.process_request("gemini://localhost/", p, None)
+                    res.append([True] if ok else [False, line])
+                wire.append(await self.W.wire_status(factory, p))
+            cap["res"], cap["wire"] = res, wire
 
-        path = os.path.join(self.dir, f"c{os.getpid()}.toml")
-        with open(path, "w", encoding="utf-8") as f:
-            f.write(self.toml_text(case))
-        self.cap.clear()
-        self.cap["peers"] = case["peers"]
-        r = CliRunner().invoke(M.app, ["serve", "--config", path, "--log-level", "ERROR"])
-        try:
-            import structlog
-
-            structlog.configure(wrapper_class=structlog.make_filtering_bound_logger(50))
-        except Exception:  # noqa: BLE001
-            pass
-        if "res" not in self.cap:
-            if self.cap.get("created"):
-                raise RuntimeError(f"probe did not finish: {r.output[-300:]} {r.exception!r}")
+        started, _ = self.capture.run(self.toml_text(case), probe)
+        if not started:
             return {"start": "failed"}
-        return {"start": "ok", "component": self.cap["component"], "res": self.cap["res"],
-                "wire": ["d" if w == "53" else "a" for w in self.cap["wire"]]}
+        return {"start": "ok", "component": cap["component"], "res": cap["res"],
+                "wire": ["d" if w == "53" else "a" for w in cap["wire"]]}
 
     def model(self, case):
         en = case.get("enabled")
